@@ -7,11 +7,12 @@ pub mod c07;
 pub mod c10;
 pub mod c11;
 pub mod c12;
+pub mod c13;
 
 use crate::report::Tier;
 
 /// Run the check for property `id`; returns the process exit code.
-pub fn run(id: &str, tier: &Tier) -> Result<i32, String> {
+pub fn run(id: &str, tier: &Tier, child: bool) -> Result<i32, String> {
     match id {
         "C01" => e1_checks::c01(tier),
         "C02" => e1_checks::c02(tier),
@@ -23,7 +24,41 @@ pub fn run(id: &str, tier: &Tier) -> Result<i32, String> {
         "C10" => c10::c10(tier),
         "C11" => c11::c11(tier),
         "C12" => c12::c12(tier),
+        "C13" => c13::c13(tier, child),
         "C05" => e2_checks::c05(tier),
         _ => Err(format!("no check registered for {}", id)),
     }
+}
+
+/// Run the same check in the other build flavour (`target/fast/vx <ID> --child`) and return its
+/// machine readable summary.
+pub fn run_child_flavour(id: &str, tier: &Tier) -> Result<serde_json::Value, String> {
+    let exe = std::env::current_exe().map_err(|e| e.to_string())?;
+    let fast = exe
+        .parent()
+        .and_then(|p| p.parent())
+        .map(|p| p.join("fast").join("vx"))
+        .ok_or("cannot locate target dir")?;
+    if !fast.exists() {
+        return Err(format!("{} not built (run ./check or setup.sh)", fast.display()));
+    }
+    let out = std::process::Command::new(&fast)
+        .arg(id)
+        .arg("--tier")
+        .arg(tier.name())
+        .arg("--child")
+        .output()
+        .map_err(|e| e.to_string())?;
+    let stdout = String::from_utf8_lossy(&out.stdout);
+    for l in stdout.lines() {
+        if let Some(j) = l.strip_prefix("CHILD-RESULT ") {
+            return serde_json::from_str(j).map_err(|e| e.to_string());
+        }
+    }
+    Err(format!(
+        "no result from {} (status {:?}): {}",
+        fast.display(),
+        out.status.code(),
+        String::from_utf8_lossy(&out.stderr).chars().take(400).collect::<String>()
+    ))
 }
